@@ -10,10 +10,10 @@ def run(chk, replay=None):
                 "one list length (distinct) and is non-trivial when n >= 0 (all)")
     chk.assumptions = ["Blake2b-256 is collision free (shapes are symbolic terms in the model)"]
     cfg = "Merkle.cfg" if chk.tier == "quick" else "MerkleThorough.cfg"
-    r = vlib.run_tlc("ledger/Merkle", cfg=cfg, timeout=300)
+    r = vlib.run_tlc("ledger/Merkle", cfg=cfg, timeout=1500)
     vlib.tlc_must_pass(r, "Merkle")
     chk.add_tlc(cfg, r)
     cases = os.path.join(r.dir, "cases.ndjson")
     drv = vlib.go_build("c35")
-    vlib.run_driver(chk, drv, [cases], timeout=300)
+    vlib.run_driver(chk, drv, [cases], timeout=900)
     chk.exhaustive = False
